@@ -2,6 +2,7 @@
 
 spec/BQueue.tla                  BufferedChannelQueue at hook grain (Offer, loader with the item it holds, consumers, wake channel, lock)
 spec/trace/Trace_BQueueAbs.tla   the abstract two-part FIFO of the statement; TLC searches linearisation points for recorded inv/res histories
+spec/trace/Trace_BQueueHook.tla  binds BQueue.tla itself to the code: hook-level traces of the real queue must be behaviours of the model (advisory: MODEL-DRIFT)
 """
 import json
 import os
@@ -28,10 +29,70 @@ def validate(ctx, tla, f):
     return a == b, a, b, r
 
 
+def hook_binding(ctx, tla, quick):
+    """Hook-level traces of the real queue validated against BQueue.tla's own actions; corrupted copies must be rejected."""
+    pre = os.path.join(ctx.scratch, "c07.hook")
+    p = ctx.drv(["c07", "hooktrace", "--rounds", 12 if quick else 150, "--out", pre], timeout=1500)
+    info = json.loads(p.stdout.strip().splitlines()[-1])
+
+    def val(f):
+        r = ctx.tlc("Trace_BQueueHook", workers=1, timeout=600, cwd=tla, dfs=True, env_extra={"VERIF_TRACE": f}, heap="6g")
+        h = r.printed("HWM")
+        if not h:
+            core.log(r.text[-2000:])
+            raise core.Inconclusive("Trace_BQueueHook did not finish on %s" % f)
+        a, b = [int(x) for x in h[-1].split(",")]
+        return a, b
+    with ThreadPoolExecutor(max_workers=4) as ex:
+        res = list(ex.map(lambda f: (f,) + val(f), info["files"]))
+    events = 0
+    for f, a, b in res:
+        events += a
+        if a != b:
+            lines = core.read_ndjson(f)
+            ctx.drift.append("BQueue.tla does not explain the hook-level trace %s at line %d: %s (previous: %s)" % (
+                os.path.basename(f), a + 1, json.dumps(lines[a])[:200], json.dumps(lines[max(0, a - 1)])[:160]))
+    # the binding must be able to reject: four corruptions of an accepted trace
+    good = [f for f, a, b in res if a == b]
+    rejected = 0
+    if good:
+        L = core.read_ndjson(good[0])
+        muts = []
+        if any(e.get("pt") == "bq.loader.polled" for e in L):
+            muts.append([e for e in L if e.get("pt") != "bq.loader.polled"])
+        for pick, change in ((lambda e: e.get("pt") == "bq.offer.done" and e["pool"] >= 1, lambda e: e.update(pool=e["pool"] - 1)),
+                             (lambda e: e["ev"] == "res" and e["thr"].startswith("c") and e["r"] == "ok", lambda e: e.update(v=e["v"] + 1))):
+            M = [dict(e) for e in L]
+            ks = [i for i, e in enumerate(M) if pick(e)]
+            if ks:
+                change(M[ks[len(ks) // 2]])
+                muts.append(M)
+        M = [dict(e) for e in L]
+        for i, e in enumerate(M):
+            if e.get("pt") == "bq.offer.locked":
+                j = next((j for j in range(i + 1, len(M)) if M[j].get("pt") == "bq.offer.done" and M[j]["thr"] == e["thr"]), None)
+                k = next((k for k in range(j + 1, len(M)) if M[k].get("pt") == "bq.offer.locked" and M[k]["thr"] != e["thr"]), None) if j else None
+                if k and k - j < 8 and not any(x["ev"] == "reset" for x in M[j:k]):
+                    M.insert(j, M.pop(k))        # a second lock holder before the first released
+                    muts.append(M)
+                    break
+        for n, M in enumerate(muts):
+            mf = "%s.mut%d.ndjson" % (pre, n)
+            core.write_ndjson(mf, M)
+            a, b = val(mf)
+            rejected += a != b
+        if rejected != len(muts):
+            raise core.Inconclusive("hook-level binding accepted %d of %d corrupted traces (vacuous)" % (len(muts) - rejected, len(muts)))
+    ctx.notes.append("hook-level binding: %d hook/inv/res events of the real queue (%d rounds, 7 (C,B) configurations) %s by BQueue.tla's own actions "
+                     "(Trace_BQueueHook); %d corrupted copies (missing hook, wrong logged pool count, wrong delivered value, second lock holder) rejected"
+                     % (events, info["rounds"], "accepted" if not ctx.drift else "NOT all accepted", rejected))
+    ctx.cov["evaluations"] += events
+
+
 def run(ctx, replay=None):
     tla = ctx.stage_specs()
     quick = ctx.tier == "quick"
-    cfgs = ["c1b1", "c1b0", "c0b1", "live"] if quick else ["c1b1", "c1b0", "c2b1", "c1b2", "c0b1", "live"]
+    cfgs = ["c1b1", "c1b0", "c0b1", "live"] if quick else ["c1b1", "c1b0", "c2b1", "c1b2", "c0b1", "c2b2", "c1b1_ttake", "live"]
     for cfg in cfgs:
         r = ctx.tlc("MC_BQueue", "MC_BQueue_%s.cfg" % cfg, workers=12, timeout=900, cwd=tla)
         if not r.completed:
@@ -80,11 +141,17 @@ def run(ctx, replay=None):
                 pending.append(nf)
     ctx.cov["traces_validated_against_impl"] += rounds_ok
     ctx.cov["distinct_nontrivial"] += rounds_ok
+    try:
+        hook_binding(ctx, tla, quick)
+    except core.Inconclusive as ex:
+        if not bad:
+            raise
+        ctx.drift.append("hook-level binding not evaluated on this tree: %s" % ex)   # the verdict above stands
     with open(info["files"][0]) as fh:
         ctx.sample([json.loads(next(fh)) for _ in range(10)])
     ctx.assumptions += [
         "verdict = no linearisation of the recorded public history in the abstract two-part FIFO (head part C, overflow part B, silent head-of-overflow moves); "
-        "BQueue.tla (hook grain) is the design-level model, checked exhaustively",
+        "BQueue.tla (hook grain) is checked exhaustively and bound to the code by hook-level trace validation (advisory MODEL-DRIFT lines when the code no longer takes the model's steps)",
         "values are unique per producer (producer*1000+i); a TakeWithTimeout / timed channel receive may always time out",
         "nothing-stranded is asserted for C >= 1 only (the statement's carve-out), by a drain bounded to 5 s",
         "hook points perturb scheduling only (yield / sleep <= 40 us); they do not change library state",
@@ -96,7 +163,8 @@ MANIFEST = {
     "text": "BQueue.tla models Offer, the loader (including the item it holds between pool.Poll and the channel push), consumers and the wake-up channel at hook grain; "
             "TLC checks bound, conservation, no duplication, producer order and exactly-once liveness over all interleavings for the capacity corners. The real queues are "
             "bound by trace validation: recorded concurrent inv/res histories (hook points perturbing the schedule) must be explainable by the abstract two-part FIFO "
-            "of the statement; TLC searches the linearisation points.",
+            "of the statement; TLC searches the linearisation points. BQueue.tla itself is bound to the code by hook-level trace validation (Trace_BQueueHook: every hook point, with the "
+            "state logged inside the lock, is one of the model's actions; lock-free steps are silent steps of the model).",
     "note": "Trusted: TLC, the event log. Real interleavings are sampled (seeded, hook-perturbed), not enumerated; the model's are exhaustive within 2x2 threads.",
     "technique": "TLA+ hook-grain model checked by TLC (safety+liveness) + TLC linearisability-style trace validation of recorded histories against the abstract FIFO",
 }
